@@ -665,10 +665,11 @@ def walk(t):
         for a in t[1]:
             yield from walk(a)
     elif k == 'closure':
-        for a in t[2]:
+        # (canonical `strip_all` forms drop capture / alternative lists: tolerate the short tuples)
+        for a in (t[2] if len(t) > 2 else ()):
             yield from walk(a)
     elif k == 'phi':
-        for a in t[2]:
+        for a in (t[2] if len(t) > 2 else ()):
             yield from walk(a)
 
 
